@@ -133,7 +133,40 @@ fn mutate_json(rng: &mut Rng, v: &Value, what: &mut String) -> Value {
     let keys: Vec<String> = obj.keys().cloned().collect();
     let pick_key = |rng: &mut Rng| keys[rng.usize(keys.len())].clone();
     *what = "unchanged".into();
-    match rng.below(14) {
+    // a long string of multi-byte characters, at a random byte alignment: what ends up quoted in a parser's
+    // error message (and cut, escaped or measured there) is under the sender's control
+    let wide = |rng: &mut Rng| -> String {
+        let unit = *rng.pick(&["é", "€", "😀", "ß∂", "漢字"]);
+        let mut s = "x".repeat(rng.usize(4));
+        let target = 20 + rng.usize(220);
+        while s.len() < target {
+            s.push_str(unit);
+        }
+        s
+    };
+    match rng.below(17) {
+        14 if !keys.is_empty() => {
+            // a numeric / object field holding a long non-ASCII string (wrong type), or a string field holding one
+            let k = if obj.contains_key("appointment") && rng.chance(1, 2) { "appointment".to_string() } else { pick_key(rng) };
+            let w = wide(rng);
+            if k == "appointment" && rng.chance(1, 2) {
+                let mut a = obj["appointment"].as_object().cloned().unwrap_or_default();
+                a.insert("to_self_delay".into(), json!(w));
+                obj.insert(k, Value::Object(a));
+                *what = "appointment.to_self_delay = long non-ascii string".into();
+            } else {
+                *what = format!("field {k} = long non-ascii string");
+                obj.insert(k, json!(w));
+            }
+        }
+        15 => {
+            *what = "json string (long, non-ascii) instead of object".into();
+            return json!(wide(rng));
+        }
+        16 => {
+            *what = "unknown field holding a long non-ascii string".into();
+            obj.insert(wide(rng), json!(wide(rng)));
+        }
         0 if !keys.is_empty() => {
             let k = pick_key(rng);
             obj.remove(&k);
@@ -291,7 +324,7 @@ fn gen_request(rng: &mut Rng, world: &World, registered: &[usize]) -> Req {
         let original = valid.clone();
         valid = mutate_json(rng, &valid, &mut what);
         body = serde_json::to_vec(&valid).unwrap();
-        expect = if what == "unchanged" || what == "extra unknown field" || valid == original { Expectation::Either } else { Expectation::MustFail };
+        expect = if what == "unchanged" || what == "extra unknown field" || what == "unknown field holding a long non-ascii string" || valid == original { Expectation::Either } else { Expectation::MustFail };
         // a resized register user id may by luck still be... no: length is checked. Resizing a signature keeps the request
         // syntactically valid (authentication fails) — still a failure.
     } else if kind < 78 {
